@@ -409,11 +409,8 @@ fn q_alias(a: &Option<TableAlias>) -> Option<Value> {
     }
 }
 
-fn q_tref(t: &TableWithJoins) -> Option<Value> {
-    if !t.joins.is_empty() {
-        return None;
-    }
-    match &t.relation {
+fn q_factor(t: &TableFactor) -> Option<Value> {
+    match t {
         TableFactor::Table { name, alias, args: None, with_hints, version: None, partitions, with_ordinality: false }
             if with_hints.is_empty() && partitions.is_empty() && name.0.len() == 1 =>
         {
@@ -422,8 +419,57 @@ fn q_tref(t: &TableWithJoins) -> Option<Value> {
         TableFactor::Derived { lateral: false, subquery, alias } => {
             Some(json!({"k": "derived", "q": q_query(subquery)?, "alias": q_alias(alias)?}))
         }
+        TableFactor::NestedJoin { table_with_joins, alias } => {
+            Some(json!({"k": "nested", "t": q_tref(table_with_joins)?, "alias": q_alias(alias)?}))
+        }
         _ => None,
     }
+}
+
+fn q_constraint(c: &JoinConstraint) -> Option<Value> {
+    Some(match c {
+        JoinConstraint::On(e) => json!({"k": "on", "e": tree(e)}),
+        JoinConstraint::Using(cols) => json!({"k": "using", "cols": cols.iter().map(q_ident).collect::<Vec<_>>()}),
+        JoinConstraint::Natural => json!({"k": "natural"}),
+        JoinConstraint::None => json!({"k": "none"}),
+    })
+}
+
+fn q_join(j: &Join) -> Option<Value> {
+    if j.global {
+        return None;
+    }
+    let (kind, c) = match &j.join_operator {
+        JoinOperator::Inner(c) => ("JInner", Some(c)),
+        JoinOperator::LeftOuter(c) => ("JLeft", Some(c)),
+        JoinOperator::RightOuter(c) => ("JRight", Some(c)),
+        JoinOperator::FullOuter(c) => ("JFull", Some(c)),
+        JoinOperator::CrossJoin => ("JCross", None),
+        _ => return None,
+    };
+    let c = match c {
+        Some(c) => q_constraint(c)?,
+        None => Value::Null,
+    };
+    Some(json!({"kind": kind, "c": c, "rel": q_factor(&j.relation)?}))
+}
+
+/// one element of FROM: a table factor with its joins
+fn q_tref(t: &TableWithJoins) -> Option<Value> {
+    let joins = t.joins.iter().map(q_join).collect::<Option<Vec<_>>>()?;
+    Some(json!({"rel": q_factor(&t.relation)?, "joins": joins}))
+}
+
+fn q_with(w: &With) -> Option<Value> {
+    let mut ctes = vec![];
+    for c in &w.cte_tables {
+        if c.from.is_some() || c.materialized.is_some() {
+            return None;
+        }
+        ctes.push(json!({"name": q_ident(&c.alias.name), "cols": c.alias.columns.iter().map(q_ident).collect::<Vec<_>>(),
+            "q": q_query(&c.query)?}));
+    }
+    Some(json!({"recursive": w.recursive, "ctes": ctes}))
 }
 
 fn q_item(i: &SelectItem) -> Option<Value> {
@@ -476,11 +522,15 @@ fn q_setexpr(b: &SetExpr) -> Option<Value> {
 }
 
 fn q_query(q: &Query) -> Option<Value> {
-    if q.with.is_some() || !q.limit_by.is_empty() || q.fetch.is_some() || !q.locks.is_empty()
+    if !q.limit_by.is_empty() || q.fetch.is_some() || !q.locks.is_empty()
         || q.for_clause.is_some() || q.settings.is_some() || q.format_clause.is_some()
     {
         return None;
     }
+    let with = match &q.with {
+        None => Value::Null,
+        Some(w) => q_with(w)?,
+    };
     let order_by = match &q.order_by {
         None => vec![],
         Some(ob) => {
@@ -502,7 +552,7 @@ fn q_query(q: &Query) -> Option<Value> {
         Some(Offset { value, rows: OffsetRows::None }) => tree(value),
         Some(_) => return None,
     };
-    Some(json!({"body": q_setexpr(&q.body)?, "order_by": order_by, "limit": q.limit.as_ref().map(tree), "offset": offset}))
+    Some(json!({"with": with, "body": q_setexpr(&q.body)?, "order_by": order_by, "limit": q.limit.as_ref().map(tree), "offset": offset}))
 }
 
 fn q_tree(q: &Query) -> Value {
@@ -608,6 +658,7 @@ fn qtables() -> Value {
                 "hyphen_table": probe_query(d, "SELECT x1 FROM x2-x3"),
                 "group_by_expr": probe_query(d, "SELECT x1 GROUP BY ()"),
                 "paren_tables": probe_query(d, "SELECT x1 FROM (x2)"),
+                "group_with": probe_query(d, "SELECT x1 GROUP BY x2 WITH ROLLUP"),
             },
         }));
     }
